@@ -12,11 +12,12 @@ def big_meshes(tier, seed):
     rng = random.Random(seed + 31)
     out = []
     sizes = [(5, 5), (6, 2), (2, 6), (11, 2), (2, 11), (12, 3)] if tier == "quick" else \
-        [(m, n) for m in range(1, 7) for n in range(1, 7) if m * n > 9] + [(11, 2), (2, 11), (12, 3), (3, 12), (8, 8), (12, 12)]
+        [(m, n) for m in range(1, 7) for n in range(1, 7) if m * n > 9] + [(11, 2), (2, 11), (12, 3), (3, 12), (8, 8), (10, 10)]
     side_sets = [(), ("W",), ("W", "E", "S", "N"), ("S", "N"), ("E",)]
     for algo in ALGOS:
         for (m, n) in sizes:
-            for sides in (side_sets if tier != "quick" else [rng.choice(side_sets)]):
+            # the list-and-string model needs ~5 s for 8x8 and ~1 min for 10x10: two boundary sets there
+            for sides in ([rng.choice(side_sets)] if tier == "quick" else side_sets[:3:2] if m * n >= 100 else side_sets):
                 out.append(families.mesh(rng, m, n, algo, rng.random() < 0.3, sides=sides,
                                          dir_end=rng.choice(["dst", "src"]), side_role=rng.choice(["s", "ms", "m"]),
                                          undirected_sides=rng.random() < 0.3))
